@@ -51,8 +51,12 @@ REG = {
     ],
     'c04': [
         dict(name='c04::g1_uncompressed', tier='quick', t=2400, stubbing=True),
+        dict(name='c04::g1_uncompressed_reencode', tier='quick', t=2400, stubbing=True),
+        dict(name='c04::g1_uncompressed_checked', tier='quick', t=2400, stubbing=True),
         dict(name='c04::g1_compressed', tier='quick', t=2400, stubbing=True),
         dict(name='c04::g2_uncompressed', tier='quick', t=3600, stubbing=True, mem=24),
+        dict(name='c04::g2_uncompressed_reencode', tier='quick', t=3600, stubbing=True, mem=24),
+        dict(name='c04::g2_uncompressed_checked', tier='quick', t=3600, stubbing=True, mem=24),
         dict(name='c04::g2_compressed', tier='quick', t=3600, stubbing=True, mem=24),
     ],
     'c05': [
